@@ -18,8 +18,10 @@ What is modelled
 Binding (R)
   harness/cmd/discover materialises each case below the scratch directory (every file, hook or not, is an sh
   script that appends "<relative path>|<arguments>" to a log outside the tree and prints
-  {"configVersion":"v1","onStartup":1}; the bad hook exits non-zero -- with or without having printed a valid
-  config -- or prints an invalid configuration), runs the REAL hook.Manager.Init (constructed like
+  {"configVersion":"v1","onStartup":1}; three of four of these scripts -- chosen by a hash of the path and the tree
+  size, so that a replay reproduces it -- also write a warning line to stderr before and/or after the configuration:
+  what a hook says on stderr is not its configuration, the expectation "it loads" is the same; the bad hook exits
+  non-zero -- with or without having printed a valid config -- or prints an invalid configuration), runs the REAL hook.Manager.Init (constructed like
   pkg/hook/hook_manager_test.go does) and compares with what TLC computed. Quick: a seeded, stratified sample of
   the quick configurations; thorough: every case of the thorough configurations.
 
@@ -392,6 +394,9 @@ def check_c20(ctx):
     ctx.cov["evaluations"] = len(cases)
     ctx.cov["distinct_nontrivial"] = sum(1 for c in cases if _nontrivial(c))
     ctx.cov["hook_processes_started"] = spawns
+    ctx.cov["loadable_hooks_that_also_write_to_stderr"] = sum(r.get("noisy", 0) for r in results)
+    if not ctx.cov["loadable_hooks_that_also_write_to_stderr"]:
+        raise Infra("no generated hook writes to stderr during --config")
     ctx.cov["case_features"] = dict(sorted(feats.items()))
     ctx.cov["failure_signatures"] = dict(sigs)
     need = ["root:lib", "root:.hooks", "dir-lib", "dir-hidden", "executable-below-lib", "executable-below-hidden-dir",
@@ -434,7 +439,8 @@ MANIFEST = {
              "hook of 4 kinds), checks the reference's invariants and emits the expected result of every case; each case is "
              "materialised on disk and the real hook.Manager.Init is run on it: GetHookNames(), the invocation log written by the "
              "generated scripts and the error text are compared with TLC's result.",
-        note="Trusts TLC, /bin/sh and the file system. Quick tier runs a seeded stratified sample (1200 of ~100 k cases), thorough "
+        note="Generated hooks print their configuration on stdout; three of four also write a warning line to stderr (before / after / both). "
+             "Trusts TLC, /bin/sh and the file system. Quick tier runs a seeded stratified sample (1200 of ~100 k cases), thorough "
              "all (~300 k). Symlinks, unreadable directories, two bad hooks at once and relative hooks directories are outside "
              "the statement and not generated. 'Lexical order' is read as byte-wise order of the relative path; hooks behind the "
              "first bad one may or may not be asked for --config.",
